@@ -263,7 +263,7 @@ func (e *c13Env) arrive(tid, name int) {
 			if leaf == nil {
 				leaf, _ = x509.ParseCertificate(cert.Certificate[0])
 			}
-			r.kind, r.gen = "cert", idOfSerial(leaf.SerialNumber.String())
+			r.kind, r.gen = "cert", c02IDOfSerial(leaf.SerialNumber.String())
 		}
 		e.mu.Lock()
 		th.result = r
